@@ -37,7 +37,7 @@ def run(chk):
               'action sequences; non-trivial = at least one step replayed')
   symtree_check.model_check(chk, ['C08_quick.cfg'])
   hits = {}
-  plan = [('C08_sim.cfg', 700, 30), ('C08_sim_obj.cfg', 300, 30)] if not thorough else \
+  plan = [('C08_sim.cfg', 500, 30), ('C08_sim_obj.cfg', 250, 30)] if not thorough else \
          [('C08_sim.cfg', 6000, 40), ('C08_sim_obj.cfg', 3000, 40)]
   for cfg, num, depth in plan:
     h = symtree_check.replay_simulated(chk, cfg, CLAUSES, num, depth, chk.seed, in_scope=in_scope,
